@@ -113,3 +113,36 @@ Proof.
   intros HP. unfold largest, comp. rewrite (Permutation_length HP).
   apply (fold_max_perm (fun v => length (iter_expand es (length nodes') [v]))). exact HP.
 Qed.
+
+(* ---------- components are the classes of an equivalence relation ---------- *)
+Lemma conn_trans es u v w : conn es u v -> conn es v w -> conn es u w.
+Proof.
+  intros Huv Hvw. induction Hvw as [v|v w x _ IH Ha]; [exact Huv|].
+  eapply conn_step; [apply IH; exact Huv|exact Ha].
+Qed.
+
+Lemma adj_sym es u w : adj es u w -> adj es w u.
+Proof. intros [H|H]; [right|left]; exact H. Qed.
+
+Lemma conn_sym es u v : conn es u v -> conn es v u.
+Proof.
+  intros H. induction H as [v|u w x _ IH Ha]; [constructor|].
+  eapply conn_trans; [|exact IH].
+  eapply conn_step; [apply conn_refl|apply adj_sym; exact Ha].
+Qed.
+
+Theorem comp_classes nodes es v w :
+  wf nodes es -> In v nodes -> In w nodes ->
+  (In w (comp nodes es v) -> forall x, In x (comp nodes es v) <-> In x (comp nodes es w)) /\
+  (~ In w (comp nodes es v) -> forall x, In x (comp nodes es v) -> ~ In x (comp nodes es w)).
+Proof.
+  intros Hwf Hv Hw. split.
+  - intros Hvw x. apply (comp_spec nodes es v w Hwf Hv) in Hvw.
+    rewrite (comp_spec nodes es v x Hwf Hv), (comp_spec nodes es w x Hwf Hw). split; intros H.
+    + eapply conn_trans; [apply conn_sym; exact Hvw|exact H].
+    + eapply conn_trans; [exact Hvw|exact H].
+  - intros Hn x Hx Hx'. apply Hn.
+    apply (comp_spec nodes es v w Hwf Hv).
+    apply (comp_spec nodes es v x Hwf Hv) in Hx. apply (comp_spec nodes es w x Hwf Hw) in Hx'.
+    eapply conn_trans; [exact Hx|apply conn_sym; exact Hx'].
+Qed.
